@@ -994,6 +994,17 @@ class Checker:
         if not stack:
             return None
         inner = stack[-1]
+        # a whole template of which analyze() reports nothing: blame the node that loads it
+        reported_srcs = getattr(self, "_rep_srcs", None)
+        if reported_srcs is None or getattr(self, "_rep_srcs_key", None) is not rep:
+            reported_srcs = {r[0] for r in rep}
+            self._rep_srcs, self._rep_srcs_key = reported_srcs, rep
+        here = next((getattr(getattr(n, "token", None), "source", None) for n in reversed(stack) if n is not None), None)
+        if here is not None and here not in reported_srcs and getattr(self, "_only_src", None) is None:
+            for n in reversed(stack):
+                s2 = getattr(getattr(n, "token", None), "source", None)
+                if n is not None and s2 is not None and s2 != here:
+                    return _node_name(n) + ".children:partial-not-analysed"
         only_src = getattr(self, "_only_src", None)
         for i, node in enumerate(stack[:-1]):
             if only_src is not None and getattr(getattr(node, "token", None), "source", None) != only_src:
@@ -1028,6 +1039,10 @@ class Checker:
         n = {"lookups": 0, "filters": 0, "tags": 0, "globals": 0, "resolves": 0}
         root_src = cs.root_src
         self._rep_key = None  # objects of the previous render are gone: forget what was memoised
+        # a partial whose loader name equals the root's Template.name (root 'pages/index' is named
+        # 'index'): analyze() takes it for the root and skips it -- a mechanism of its own
+        clash_src = cs.templates.get(cs.t.name) if cs.t.name != cs.root else None
+        CL = "partial-named-like-the-root-template"
         self._only_src = root_src if root_only else None
 
         def names(src: Any) -> list[str]:
@@ -1055,6 +1070,8 @@ class Checker:
                 if overl:
                     where = "span-mismatch"  # the variable is reported, at another place
                     near = [(k[1], k[2]) for k in overl]
+                elif src == clash_src:
+                    where = CL
                 else:
                     where = self.blame(cs, st, stack, tok, "Path") or node
                 out.append((f"vars:missing@{where}",
@@ -1093,7 +1110,7 @@ class Checker:
                 continue
             n["filters"] += 1
             if not any((nm, start, stop, name) in st.filter_at for nm in names(src)):
-                where = self.blame(cs, st, stack, tok, "Filter") or node
+                where = CL if src == clash_src else (self.blame(cs, st, stack, tok, "Filter") or node)
                 out.append((f"filters:missing@{where}",
                             f"the render applied filter {name!r} at {names(src)}[{start}:{stop}] but "
                             f"analyze().filters has no such entry",
@@ -1103,7 +1120,7 @@ class Checker:
                 continue
             n["tags"] += 1
             if not any((nm, start, stop, name) in st.tag_at for nm in names(src)):
-                up = self.blame(cs, st, stack + (None,), None, None)
+                up = CL if src == clash_src else self.blame(cs, st, stack + (None,), None, None)
                 out.append((f"tags:missing@{up}" if up else f"tags:missing:{name}",
                             f"the render executed tag {name!r} ({node}) at {names(src)}[{start}:{stop}] but "
                             f"analyze().tags has no such entry",
@@ -1120,6 +1137,8 @@ class Checker:
                 continue
             if info["via"] == "resolve":
                 kind = ("implicit-config" if name in IMPLICIT_CONFIG_NAMES else "message-variable") + f"@{info['owner']}"
+            elif loc is not None and loc[0] == clash_src:
+                kind = CL
             elif name not in st.variable_names:
                 kind = "unreported-variable"
             elif name in {t.split(".", 1)[0] for t in cs.templates} - \
